@@ -914,7 +914,9 @@ def delete_unreachable_code(source: str) -> str:
             continue
 
         if isinstance(node, ast.While) and not test_value:
-            yield node, None, transaction
+            # The else clause of a loop whose test is false is still executed.
+            if not node.orelse:
+                yield node, None, transaction
             continue
 
         if isinstance(node, ast.If):
@@ -1895,7 +1897,8 @@ def remove_dead_ifs(source: str) -> str:
         except ValueError:
             continue
 
-        if isinstance(node, ast.While) and not value:
+        if isinstance(node, ast.While) and not value and not node.orelse:
+            # The else clause of a loop whose test is false is still executed.
             yield node, None
 
         if isinstance(node, ast.IfExp):
